@@ -99,7 +99,7 @@ def gen_decimal(rng, quantum):
 def gen_integer(rng, length):
     if length is not None:
         hi = 10**length - 1
-        return rng.choice([0, 1, hi, rng.randint(0, hi)])
+        return rng.choice([0, 1, hi, rng.randint(0, hi), -hi, -(10 ** (length - 1)), -rng.randint(0, hi)])
     return rng.choice([0, 1, -1, rng.randint(-10**6, 10**6), 10**12, rng.randint(0, 9999)])
 
 
